@@ -2,7 +2,8 @@
    prod, list, sumbool mapped to OCaml's own); there is no Extract Constant and no numeric mapping:
    N, Z, positive and nat stay the extracted inductives. *)
 From Coq Require Import ExtrOcamlBasic.
-From RbxVerif Require Import Base Dom Tree.
+From RbxVerif Require Import Base Dom Tree Intern.
 Extraction Language OCaml.
 Set Extraction KeepSingleton.
-Extraction "model.ml" Dom.step Dom.world0 Dom.dom_descendants_of Tree.astep Tree.aworld0 Tree.aflat Tree.bfs_all Tree.ffind.
+Extraction "model.ml" Dom.step Dom.world0 Dom.dom_descendants_of Tree.astep Tree.aworld0 Tree.aflat Tree.bfs_all Tree.ffind
+  Intern.tstep Intern.tinit Intern.table_len.
